@@ -63,6 +63,7 @@ func init() {
 	"slices.Clone":            extSlicesClone,
 	"slices.ContainsFunc":     extSlicesContainsFunc,
 	"slices.IndexFunc":        extSlicesIndexFunc,
+	"slices.DeleteFunc":       extSlicesDeleteFunc,
 	"math.Ceil":               extMathCeil,
 	"context.WithCancel":      extNoop,
 	"context.Background":      extNoop,
@@ -238,4 +239,39 @@ func extSlicesIndexFunc(e *Env, fr *Frame, fn *ssa.Function, args []Value, rt ty
 		mkAnd(sx("<=", "0", r), sx("<", r, s.Len), pr,
 			fmt.Sprintf("(forall ((%s Int)) (=> (and (<= 0 %s) (< %s %s)) (not %s)))", j, j, j, r, p))))
 	return intV(r, rt)
+}
+
+// slices.DeleteFunc(s, del): in-place filter. The result shares s's backing array, has the
+// elements of s for which del is false, in order (described by Skolem index maps f and g),
+// and the vacated tail is zeroed (Go >= 1.22).
+func extSlicesDeleteFunc(e *Env, fr *Frame, fn *ssa.Function, args []Value, rt types.Type, st *State) Value {
+	s := args[0].(*Slice)
+	pre := st.clone()
+	et := s.Typ.Underlying().(*types.Slice).Elem()
+	e.counter++
+	f := q(fmt.Sprintf("delf!%d", e.counter))
+	g := q(fmt.Sprintf("delg!%d", e.counter))
+	e.sess.Cmd("(declare-fun " + f + " (Int) Int)")
+	e.sess.Cmd("(declare-fun " + g + " (Int) Int)")
+	n := e.fresh("dellen", sInt)
+	e.assume(mkAnd(sx("<=", "0", n), sx("<=", n, s.Len)))
+	k, k2, j := "|$k|", "|$k2|", "|$j|"
+	pf := e.closureAt(args[1], s, sx(f, k), pre)
+	pj := e.closureAt(args[1], s, j, pre)
+	e.assume(fmt.Sprintf("(forall ((%s Int)) (! (=> (and (<= 0 %s) (< %s %s)) (and (<= 0 (%s %s)) (< (%s %s) %s) (not %s))) :pattern ((%s %s))))", k, k, k, n, f, k, f, k, s.Len, pf, f, k))
+	e.assume(fmt.Sprintf("(forall ((%s Int) (%s Int)) (! (=> (and (<= 0 %s) (< %s %s) (< %s %s)) (< (%s %s) (%s %s))) :pattern ((%s %s) (%s %s))))", k, k2, k, k, k2, k2, n, f, k, f, k2, f, k, f, k2))
+	e.assume(fmt.Sprintf("(forall ((%s Int)) (! (=> (and (<= 0 %s) (< %s %s) (not %s)) (and (<= 0 (%s %s)) (< (%s %s) %s) (= (%s (%s %s)) %s))) :pattern ((%s %s))))", j, j, j, s.Len, pj, g, j, g, j, n, f, g, j, j, g, j))
+	names, sorts, leaves := e.elemArrays(et)
+	for i, name := range names {
+		arr := e.heapGet(st, name, sorts[i])
+		inner := "(Array Int " + leaves[i].Sort + ")"
+		old := e.maybeNameForce(mkSelect(arr, s.Arr), inner, "delold")
+		ni := e.fresh("deleted", inner)
+		e.assume(fmt.Sprintf("(forall ((%s Int)) (! (=> (and (<= 0 %s) (< %s %s)) (= (select %s (+ %s %s)) (select %s (+ %s (%s %s))))) :pattern ((select %s (+ %s %s)))))", k, k, k, n, ni, s.Off, k, old, s.Off, f, k, ni, s.Off, k))
+		e.assume(fmt.Sprintf("(forall ((%s Int)) (! (=> (and (<= %s %s) (< %s %s)) (= (select %s (+ %s %s)) %s)) :pattern ((select %s (+ %s %s)))))", k, n, k, k, s.Len, ni, s.Off, k, e.zeroLeaf(leaves[i]), ni, s.Off, k))
+		e.assume(fmt.Sprintf("(forall ((%s Int)) (! (=> (or (< %s %s) (>= %s (+ %s %s))) (= (select %s %s) (select %s %s))) :pattern ((select %s %s))))", j, j, s.Off, j, s.Off, s.Len, ni, j, old, j, ni, j))
+		e.heapSet(st, name, sorts[i], e.maybeName(mkStore(arr, s.Arr, ni), sorts[i]))
+		e.noteWrite(name, s.Arr)
+	}
+	return &Slice{Arr: s.Arr, Off: s.Off, Len: n, Cap: s.Cap, Typ: rt}
 }
